@@ -23,8 +23,8 @@ def explore(v, tag, name, depth, export=True, maxstack=3, maxsize=5, simulate=No
     wd = workdir(name)
     res = run_tlc('MC_Gen', GEN_CFG.format(maxstack=maxstack, maxsize=maxsize, depth=depth, export='TRUE' if export else 'FALSE', atlevel=(depth - 1 if simulate else 0),
                                            ac='ACTION_CONSTRAINT Export' if export else ''), wd,
-                  extra=(['-simulate', f'num={simulate[0]}', '-depth', str(depth), '-seed', str(simulate[1])] if simulate else None),
-                  workers=(4 if simulate else 16))
+                  extra=(['-simulate', f'num={simulate[0] * 4}', '-depth', str(depth), '-seed', str(simulate[1])] if simulate else None),
+                  workers=1)        # one worker: the explored set and the witness histories are then reproducible
     if not simulate:
         tlc_must_be_clean(res, name)
     elif res.error and 'Simulation' not in res.out:
